@@ -436,6 +436,14 @@ static void exec_line(const std::string &line) {
     images[img] = out.str();
     emit("{\"e\":\"Save\",\"h\":" + std::to_string(h) + ",\"img\":" + std::to_string(img) + ",\"bytes\":" + limbs(images[img].size()) + ",\"dg\":\"" +
          digest(images[img]) + "\",\"hd\":" + bytesj((const unsigned char *)images[img].data(), std::min<size_t>(28, images[img].size())) + "}");
+  } else if (op == "DUMP") {
+    // whole image as hex (used by the XBW array binding; not part of validated traces)
+    int img;
+    ss >> img;
+    static const char *hexd = "0123456789abcdef";
+    std::string hx;
+    for (unsigned char c : images[img]) { hx += hexd[c >> 4]; hx += hexd[c & 15]; }
+    emit("{\"e\":\"Image\",\"img\":" + std::to_string(img) + ",\"hex\":\"" + hx + "\"}");
   } else if (op == "CAT") {
     int st, img;
     ss >> st;
